@@ -171,6 +171,17 @@ func (fg *FnGen) assumeOld(t *Term, ty types.Type) {
 		fg.assume(Le(t, fg.refLimit()))
 	case *types.Slice:
 		fg.assume(Le(SBase(t), fg.refLimit()))
+	case *types.Struct:
+		// by-value struct parameter: its pointer / slice fields refer to pre-existing objects too
+		stt := ty.Underlying().(*types.Struct)
+		srt := fg.g.ti.structSort(ty, stt)
+		for i := 0; i < stt.NumFields(); i++ {
+			ft := stt.Field(i).Type()
+			switch ft.Underlying().(type) {
+			case *types.Pointer, *types.Map, *types.Chan, *types.Slice, *types.Struct:
+				fg.assumeOld(Sel(fmt.Sprintf("%s.%s", srt, stt.Field(i).Name()), fg.g.ti.sortOf(ft), i, t), ft)
+			}
+		}
 	}
 }
 
@@ -676,6 +687,8 @@ func (fg *FnGen) enterLoop(fr *Frame, li *loopInfo, st *State) *State {
 			break
 		}
 	}
+	// everything the loop-carried variables refer to was allocated before the current iteration's own allocations
+	fg.bumpClockForPhis(fr, h)
 	// assume invariants at the header
 	if fg.ct != nil {
 		env := fg.loopEnv(fr, li, nil, hst)
@@ -736,6 +749,21 @@ func (fg *FnGen) rangeFacts(fr *Frame, li *loopInfo, st *State) {
 func (fg *FnGen) loopEnv(fr *Frame, li *loopInfo, from *ssa.BasicBlock, st *State) *Env {
 	env := fg.baseEnv(fr, st)
 	h := li.header
+	// source-level locals that are not loop-carried keep the value they have at the edge / at the header
+	lb := h
+	if from != nil {
+		lb = from
+	}
+	if d := h.Idom(); from == nil && d != nil {
+		lb = d
+	}
+	if fr.locals != nil {
+		for ln, lv := range fr.locals[lb] {
+			if _, taken := env.vars[ln]; !taken {
+				env.vars[ln] = lv
+			}
+		}
+	}
 	for _, ins := range h.Instrs {
 		phi, ok := ins.(*ssa.Phi)
 		if !ok {
@@ -783,6 +811,11 @@ func (fg *FnGen) checkInvariants(fr *Frame, li *loopInfo, from *ssa.BasicBlock, 
 	}
 	guard := fg.edgeReach(fr, from, li.header)
 	env := fg.loopEnv(fr, li, from, st)
+	if which == "keep" {
+		// goal position: offer the loop indices reached so far as witnesses for integer existentials
+		fg.collectWitnesses()
+		defer func() { fg.witnesses = nil }()
+	}
 	for _, c := range fg.ct.Invariants[li.ordinal] {
 		v, err := env.evalBool(c.Expr)
 		label := fmt.Sprintf("inv:loop%d:%s:%s", li.ordinal, which, c.Label)
